@@ -3,6 +3,7 @@
 mod anchor;
 mod deliver;
 mod direct;
+mod direct2;
 mod driver;
 mod faults;
 mod gen;
@@ -65,6 +66,7 @@ fn main() {
                 1
             }
         }
+        Some("c18child") => direct2::c18_child_main(),
         Some("anchor") => match anchor::anchor() {
             Ok(n) => {
                 println!("anchored {} AWS vectors", n);
